@@ -41,6 +41,8 @@ func checkC18(c *core.Ctx) error {
 	c18Wire(c)
 	c18Tables(c)
 	c18FloatWidth(c)
+	c18IntParse(c)
+	c18AccessorsReadInputs(c)
 	c18LikeNamed(c)
 	c18NamedKeys(c)
 	c18DecoderComplete(c)
@@ -1511,9 +1513,10 @@ func byConstruction(info *types.Info, fd *ast.FuncDecl, guard string) bool {
 		if len(names) != 2 {
 			return false
 		}
-		// both are locals appended exactly once, inside the same innermost for statement
+		// both are locals that grow only inside the same innermost for statement, and every path through one iteration of
+		// that statement (to its end, a continue or a break) appends the same number of elements to both
 		loopOf := map[string]ast.Node{}
-		count := map[string]int{}
+		sameLoop := true
 		var stack []ast.Node
 		ast.Inspect(fd.Body, func(n ast.Node) bool {
 			if n == nil {
@@ -1522,30 +1525,35 @@ func byConstruction(info *types.Info, fd *ast.FuncDecl, guard string) bool {
 			}
 			stack = append(stack, n)
 			as, ok := n.(*ast.AssignStmt)
-			if !ok || len(as.Lhs) != 1 || len(as.Rhs) != 1 {
+			if !ok {
 				return true
 			}
-			call, ok := as.Rhs[0].(*ast.CallExpr)
-			if !ok || len(call.Args) != 2 {
-				return true
-			}
-			if id, ok := call.Fun.(*ast.Ident); !ok || id.Name != "append" {
-				return true
-			}
-			nm := types.ExprString(as.Lhs[0])
-			if nm != types.ExprString(call.Args[0]) {
-				return true
-			}
-			count[nm]++
-			for k := len(stack) - 1; k >= 0; k-- {
-				if f, ok := stack[k].(*ast.ForStmt); ok {
-					loopOf[nm] = f
-					break
+			for _, l := range as.Lhs {
+				nm := types.ExprString(l)
+				if nm != names[0] && nm != names[1] {
+					continue
 				}
+				if as.Tok == token.DEFINE {
+					continue // the declaration
+				}
+				var loop ast.Node
+				for k := len(stack) - 1; k >= 0; k-- {
+					if f, ok := stack[k].(*ast.ForStmt); ok {
+						loop = f
+						break
+					}
+				}
+				if loop == nil || (loopOf[nm] != nil && loopOf[nm] != loop) {
+					sameLoop = false
+				}
+				loopOf[nm] = loop
 			}
 			return true
 		})
-		return count[names[0]] == 1 && count[names[1]] == 1 && loopOf[names[0]] != nil && loopOf[names[0]] == loopOf[names[1]]
+		if !sameLoop || loopOf[names[0]] == nil || loopOf[names[0]] != loopOf[names[1]] {
+			return false
+		}
+		return balancedAppends(loopOf[names[0]].(*ast.ForStmt).Body.List, names[0], names[1])
 	}
 	if strings.Contains(guard, "(cols * rows) == len(values)") {
 		hasTest, hasInc, hasAppend := false, false, false
@@ -1569,6 +1577,119 @@ func byConstruction(info *types.Info, fd *ast.FuncDecl, guard string) bool {
 		return hasTest && hasInc && hasAppend
 	}
 	return false
+}
+
+// balancedAppends: every path through the statements that does not leave the function appends the same number of elements
+// to a and to b (x = append(x, one)); any other assignment to either, or an append inside a construct that is not a plain
+// if/else chain or block, makes the answer false.
+func balancedAppends(list []ast.Stmt, a, b string) bool {
+	type delta struct{ a, b int }
+	okAll := true
+	mentions := func(n ast.Node) bool {
+		found := false
+		ast.Inspect(n, func(x ast.Node) bool {
+			if as, ok := x.(*ast.AssignStmt); ok {
+				for _, l := range as.Lhs {
+					if nm := types.ExprString(l); nm == a || nm == b {
+						found = true
+					}
+				}
+			}
+			return true
+		})
+		return found
+	}
+	// walk returns the deltas of the paths that fall through; paths that continue/break are checked on the spot
+	var walk func(list []ast.Stmt, in []delta) []delta
+	walk = func(list []ast.Stmt, in []delta) []delta {
+		cur := in
+		for _, st := range list {
+			if len(cur) == 0 {
+				return cur
+			}
+			switch v := st.(type) {
+			case *ast.AssignStmt:
+				if !mentions(v) {
+					continue
+				}
+				if len(v.Lhs) != 1 || len(v.Rhs) != 1 || v.Tok != token.ASSIGN {
+					okAll = false
+					return nil
+				}
+				nm := types.ExprString(v.Lhs[0])
+				call, ok := v.Rhs[0].(*ast.CallExpr)
+				if !ok || len(call.Args) != 2 || call.Ellipsis.IsValid() || types.ExprString(call.Args[0]) != nm {
+					okAll = false
+					return nil
+				}
+				if id, ok := call.Fun.(*ast.Ident); !ok || id.Name != "append" {
+					okAll = false
+					return nil
+				}
+				var next []delta
+				for _, d := range cur {
+					if nm == a {
+						d.a++
+					} else {
+						d.b++
+					}
+					next = append(next, d)
+				}
+				cur = next
+			case *ast.ReturnStmt:
+				return nil
+			case *ast.BranchStmt:
+				if v.Label != nil || (v.Tok != token.CONTINUE && v.Tok != token.BREAK) {
+					okAll = false
+					return nil
+				}
+				for _, d := range cur {
+					if d.a != d.b {
+						okAll = false
+					}
+				}
+				return nil
+			case *ast.BlockStmt:
+				cur = walk(v.List, cur)
+			case *ast.IfStmt:
+				if v.Init != nil && mentions(v.Init) {
+					okAll = false
+					return nil
+				}
+				var out []delta
+				out = append(out, walk(v.Body.List, cur)...)
+				switch e := v.Else.(type) {
+				case nil:
+					out = append(out, cur...)
+				case *ast.BlockStmt:
+					out = append(out, walk(e.List, cur)...)
+				case *ast.IfStmt:
+					out = append(out, walk([]ast.Stmt{e}, cur)...)
+				}
+				// deduplicate
+				seen := map[delta]bool{}
+				cur = nil
+				for _, d := range out {
+					if !seen[d] {
+						seen[d] = true
+						cur = append(cur, d)
+					}
+				}
+			default:
+				if mentions(st) {
+					okAll = false
+					return nil
+				}
+			}
+		}
+		return cur
+	}
+	for _, d := range walk(list, []delta{{0, 0}}) {
+		if d.a != d.b {
+			okAll = false
+		}
+	}
+	return okAll
 }
 
 // errAssignBefore: for `if X != nil { return ... }` with X a local error variable, the latest assignment X := call(...) /
@@ -2251,6 +2372,7 @@ func c18EncodersPure(c *core.Ctx) {
 // therefore have a type other than the receiver's (a conversion to the underlying number, a wire struct).
 func c18NoSelfMarshal(c *core.Ctx) {
 	c.Rule("C18.R11", "MarshalJSON does not pass a value of its own receiver type to json.Marshal (unbounded recursion)", 12)
+	c.Rule("C18.R12", "every accessor of a decoded configuration (methods of ConfigDistribution) reads all of its parameters (name, type, shape)", 20)
 	for _, p := range c.LibPkgs() {
 		info := p.TypesInfo
 		pkg := p
@@ -2298,4 +2420,152 @@ func c18NoSelfMarshal(c *core.Ctx) {
 				"MarshalJSON passes "+bad+", a value of its own receiver type, to json.Marshal: the generic encoder calls MarshalJSON again and the call never returns (stack overflow on every encoding of this type)")
 		})
 	}
+}
+
+// c18IntParse (part of R3): a reader that stores its parsed numbers as 64-bit integers (int64(value), int(value)) must
+// not obtain them with strconv.ParseFloat: a float64 holds 53 bits, so integers beyond 2^53 written by the exporter come
+// back changed.
+func c18IntParse(c *core.Ctx) {
+	for _, p := range c.LibPkgs() {
+		if p.PkgPath != core.RootPkg {
+			continue
+		}
+		info := p.TypesInfo
+		pkg := p
+		core.EachFunc(p, func(_ *ast.File, fd *ast.FuncDecl) {
+			if !strings.HasPrefix(fd.Name.Name, "Import") {
+				return
+			}
+			// locals assigned from ParseFloat
+			type pfloat struct {
+				pos  token.Pos
+				text string
+			}
+			parsed := map[types.Object]pfloat{}
+			ast.Inspect(fd.Body, func(x ast.Node) bool {
+				as, ok := x.(*ast.AssignStmt)
+				if !ok || len(as.Rhs) != 1 {
+					return true
+				}
+				ce, ok := ast.Unparen(as.Rhs[0]).(*ast.CallExpr)
+				if !ok {
+					return true
+				}
+				if fn := core.Callee(info, ce); fn != nil && fn.Pkg() != nil && fn.Pkg().Path() == "strconv" && fn.Name() == "ParseFloat" {
+					if id, ok := as.Lhs[0].(*ast.Ident); ok {
+						o := info.Defs[id]
+						if o == nil {
+							o = info.Uses[id]
+						}
+						if o != nil {
+							parsed[o] = pfloat{ce.Pos(), types.ExprString(ce.Args[0])}
+						}
+					}
+				}
+				return true
+			})
+			if len(parsed) == 0 {
+				return
+			}
+			// exact parses of the same text: strconv.ParseInt(text, 10, 64) whose value is stored
+			type exact struct {
+				pos  token.Pos
+				text string
+			}
+			var exacts []exact
+			ast.Inspect(fd.Body, func(x ast.Node) bool {
+				as, ok := x.(*ast.AssignStmt)
+				if !ok || len(as.Rhs) != 1 {
+					return true
+				}
+				ce, ok := ast.Unparen(as.Rhs[0]).(*ast.CallExpr)
+				if !ok || len(ce.Args) != 3 {
+					return true
+				}
+				fn := core.Callee(info, ce)
+				if fn == nil || fn.Pkg() == nil || fn.Pkg().Path() != "strconv" || (fn.Name() != "ParseInt" && fn.Name() != "ParseUint") {
+					return true
+				}
+				if b, ok := core.ConstInt(info, ce.Args[1]); !ok || b != 10 {
+					return true
+				}
+				if b, ok := core.ConstInt(info, ce.Args[2]); !ok || b != 64 {
+					return true
+				}
+				id, ok := as.Lhs[0].(*ast.Ident)
+				if !ok || id.Name == "_" {
+					return true
+				}
+				o := info.Defs[id]
+				if o == nil {
+					o = info.Uses[id]
+				}
+				stored := false
+				ast.Inspect(fd.Body, func(y ast.Node) bool {
+					if c2, ok := y.(*ast.CallExpr); ok {
+						for _, a := range c2.Args {
+							ast.Inspect(a, func(z ast.Node) bool {
+								if i2, ok := z.(*ast.Ident); ok && info.Uses[i2] == o {
+									stored = true
+								}
+								return true
+							})
+						}
+					}
+					return true
+				})
+				if stored {
+					exacts = append(exacts, exact{ce.Pos(), types.ExprString(ce.Args[0])})
+				}
+				return true
+			})
+			g := core.NewFuncCFG(fd.Body, info)
+			bad := token.NoPos
+			wide := ""
+			ast.Inspect(fd.Body, func(x ast.Node) bool {
+				ce, ok := x.(*ast.CallExpr)
+				if !ok || len(ce.Args) != 1 {
+					return true
+				}
+				tv, ok := info.Types[ce.Fun]
+				if !ok || !tv.IsType() {
+					return true
+				}
+				bt, ok := tv.Type.Underlying().(*types.Basic)
+				if !ok || (bt.Kind() != types.Int64 && bt.Kind() != types.Int && bt.Kind() != types.Uint64) {
+					return true
+				}
+				if id, ok := ast.Unparen(ce.Args[0]).(*ast.Ident); ok {
+					if pf, ok := parsed[info.Uses[id]]; ok {
+						covered := false
+						for _, e := range exacts {
+							if e.text == pf.text && g.NodeDominates(e.pos, pf.pos) {
+								covered = true
+							}
+						}
+						if !covered {
+							bad = pf.pos
+							wide = bt.Name()
+						}
+					}
+				}
+				return true
+			})
+			c.Check(bad == token.NoPos, "C18.R3", c.FuncName(pkg, fd), "64-bit integer elements are not parsed through float64 alone", bad,
+				"the reader parses an element with strconv.ParseFloat and stores it as "+wide+" without first trying strconv.ParseInt(text, 10, 64) on the same text: integers beyond 2^53 written by the exporter are rounded on the way back")
+		})
+	}
+}
+
+// c18AccessorsReadInputs (R12): the readers of a decoded configuration (methods of ConfigDistribution) use every one of
+// their inputs: an accessor that ignores the parameter name (or the requested shape) hands every importer the wrong
+// entry or fails on every document its exporter writes.
+func c18AccessorsReadInputs(c *core.Ctx) {
+	p := c.Pkg("statistics")
+	if p == nil {
+		c.Unknown("C18.R12", "statistics", "package loaded", token.NoPos, "not loaded")
+		return
+	}
+	paramsAreRead(c, "C18.R12", p, func(fd *ast.FuncDecl) bool { return core.RecvTypeName(fd) == "ConfigDistribution" },
+		"the importer that calls this accessor gets something that does not depend on the entry it asked for, so the exported configuration is not read back")
 }
